@@ -1187,6 +1187,19 @@ func (t *TBtree) flushTree(cleanupPercentageHint float32, forceSync bool, forceC
 
 	if !t.root.mutated() && cleanupPercentage == 0 {
 		t.logger.Infof("flushing not needed at '%s' {ts=%d, cleanup_percentage=%.2f}", t.path, t.root.ts(), cleanupPercentage)
+
+		if forceSync && t.insertionCountSinceSync > 0 {
+			// the current root was written by a flush that did not sync: a
+			// requested sync must still make that data durable
+			for _, l := range []appendable.Appendable{t.hLog, t.nLog, t.cLog} {
+				err = l.Sync()
+				if err != nil {
+					return 0, 0, t.wrapNwarn("syncing index '%s' {ts=%d} returned: %v", t.path, t.root.ts(), err)
+				}
+			}
+			t.insertionCountSinceSync = 0
+		}
+
 		return 0, 0, nil
 	}
 
